@@ -187,5 +187,21 @@ def evaluate(ctx, corr, cs, name, fn="mismatches", casetype="case", extra_import
         for idx, poss in found:
             pos = [int(x) for x in re.findall(r"-?\d+", poss)]
             corr.mismatches.append({"kind": kind, "case": cases[int(idx)][1], "differs": [namer(p) for p in pos]})
+    # generated case files do not stay behind (a shard that did not evaluate to [] is kept for the replay)
+    bad = {m.get("shard") for m in corr.mismatches if isinstance(m, dict) and m.get("shard")}
+    keep_all = any(isinstance(m, dict) and m.get("kind") == kind for m in corr.mismatches)
+    if not keep_all:
+        for nm, _ in items:
+            if nm in bad:
+                continue
+            for ext in (".v", ".vo", ".vok", ".vos", ".glob"):
+                try:
+                    os.remove(os.path.join(ctx.gen, nm + ext))
+                except OSError:
+                    pass
+            try:
+                os.remove(os.path.join(ctx.gen, "." + nm + ".aux"))
+            except OSError:
+                pass
     corr.cases += cs.total()
     return corr
